@@ -230,6 +230,7 @@ struct Interp {
             else if (op.name == "regbi") { long n = std::min<long>(std::max<long>(op.i(0), 0), 60); LA(c10_regbi((int)n)); ctx.label(n >= 13 ? "builtin-table-grew-twice" : n >= 3 ? "builtin-table-grew" : "builtins-registered"); }
             else if (op.name == "batch") { is_batch = true; batch(op); }
             else if (op.name == "env") continue;
+            else if (op.name == "home") { static const char *homes[] = {"/h", "/home/vt", "/home/bartholomew/a/long/way/down", "/root"}; w.home = homes[((op.i(0) % 4) + 4) % 4]; c10_setenv("HOME", w.home.c_str(), 0); ctx.label("HOME-changed-between-expansions"); }
             else ctx.fail("harness", "unknown op " + op.name);
         }
         LA(c10_free());
@@ -298,7 +299,14 @@ rc::Gen<std::string> gen_value() {
             else if (k < 6) s += *gen_escape();
             else if (k == 6) s += "~";
             else if (k < 9) s += *gen_envref();
-            else if (k == 9) { s += "'"; long m = *range(0, 3); for (long j = 0; j < m; j++) { int q = (int)*range(0, 5); s += q == 0 ? *gen_plain(5) : q == 1 ? std::string("~") : q == 2 ? *gen_envref() : q == 3 ? std::string("\\n") : q == 4 ? std::string("\"") : std::string("\\'"); } s += "'"; if (*range(0, 1)) s += " ~ $VT_A "; }
+            else if (k == 9) {
+                // inside single quotes a backslash keeps its follower - whatever the follower is (another backslash right before the closing quote,
+                // a %call, a $NAME, a tilde): only \' means a quote
+                s += "'"; long m = *range(0, 3);
+                for (long j = 0; j < m; j++) { int q = (int)*range(0, 9); s += q == 0 ? *gen_plain(5) : q == 1 ? std::string("~") : q == 2 ? *gen_envref() : q == 3 ? std::string("\\n") : q == 4 ? std::string("\"") : q == 5 ? std::string("\\'")
+                                                                         : q == 6 ? std::string("\\\\") : q == 7 ? std::string("\\%get(k)") : q == 8 ? std::string("\\$VT_A ") : std::string("\\~"); }
+                s += "'"; if (*range(0, 1)) s += " ~ $VT_A ";
+            }
             else if (k == 10) { s += "\""; long m = *range(0, 3); for (long j = 0; j < m; j++) { int q = (int)*range(0, 3); s += q == 0 ? *gen_plain(5) : q == 1 ? std::string("~") : q == 2 ? *gen_envref() : *gen_escape(); } s += "\""; }
             else if (k < 13) s += *gen_call();
             else { long rep = *range(0, 30) == 0 ? *range(9000, 21000) : *range(1, 300); s += std::string((size_t)rep, 'p'); }
@@ -317,7 +325,10 @@ rc::Gen<Case> gen_exact() {
             c.push_back(mk("exp", {}, {std::string((size_t)N, 'q') + *rc::gen::elementOf(std::vector<std::string>{"${VT_L}", "$VT_L ", "$(VT_L)tail", "${VT_L}~"})}));
             return c;
         }
-        for (long i = 0; i < n; i++) c.push_back(mk("exp", {}, {*gen_value()}));
+        for (long i = 0; i < n; i++) {
+            c.push_back(mk("exp", {}, {*gen_value()}));
+            if (c[0].ints[0] && *range(0, 5) == 0) { c.push_back(mk("home", {*range(0, 3)})); c.push_back(mk("exp", {}, {*rc::gen::elementOf(std::vector<std::string>{"~", "~/x and more", "path ~/x $VT_A", "a ~ b ~ c"})})); }
+        }
         return c;
     });
 }
